@@ -204,8 +204,13 @@ def conclude(prop, tier, seed, results, wall, reg):
         cov["distinct_nontrivial"] = max(2, len({o["name"] for _, o in obligations}))
     ev = {"property_id": prop, "tier": tier, "seed": seed, "level": level, "coverage": cov,
           "assumptions": assumptions, "wall_s": round(wall, 2), "violations": violations}
-    os.makedirs(os.path.join(HERE, "evidence"), exist_ok=True)
-    with open(os.path.join(HERE, "evidence", f"{prop}.json"), "w") as f:
+    # evidence/ describes runs against /repo itself; runs of the self-test against a scratch copy
+    # (CHARTPARSE_REPO set to something else) write theirs under out/
+    evdir = os.path.join(HERE, "evidence")
+    if os.path.realpath(os.environ.get("CHARTPARSE_REPO", "/repo")) != "/repo":
+        evdir = os.path.join(HERE, "out", "evidence-scratch")
+    os.makedirs(evdir, exist_ok=True)
+    with open(os.path.join(evdir, f"{prop}.json"), "w") as f:
         json.dump(ev, f, indent=1, default=str)
     for ln in lines:
         print(ln)
